@@ -281,7 +281,9 @@ impl SendRateComp {
             _ => panic!()
         }
 
-        self.send_rate = self.send_rate.min(self.max_send_rate);
+        // The slow start branches above use W_init/R, which for an RTT estimate beyond ~190s is
+        // less than the minimum rate s/t_mbi that all other paths maintain
+        self.send_rate = self.send_rate.max(MINIMUM_RATE).min(self.max_send_rate);
 
         // Restart nofeedback timer
         self.nofeedback_exp_ms = Some(now_ms + s_to_ms(rto_s));
